@@ -7,7 +7,7 @@ PROPERTIES_MODULE = "Properties.C04"
 COQ_TARGETS = ["Properties/C04.vo", "Model/Dispatch.vo"]
 THEOREMS = ["C04_source_flags", "C04_setsketch_set_semantics", "C04_dens_set_semantics", "C04_dens_holds_streamed_hash"]
 AXIOMS_ALLOWED = []
-TRANSLATORS = [("flags", sklib.translate_flags)]
+TRANSLATORS = [("flags-smh", sklib.translate_flags_smh), ("flags-dens", sklib.translate_flags_dens)]
 TRUSTED_BASE = [
     "hand-written models coq/Model/{SetSketch,SuperMinHash,SuperMinHash2,DensMinHash}.v, each compared with the real sketcher on "
     "every field over generated histories (hooks verif_state)",
